@@ -83,7 +83,7 @@ def one(ctx, LP, D, ph, mode):
 
 
 def run(tier, seed):
-    ctx = core.Ctx(PROP, tier, seed, "translation_validation", ["C06"])
+    ctx = core.Ctx(PROP, tier, seed, "translation_validation", ["C06", "C06b"])
     ctx.axioms = core.audit(ctx.modules)
     import pyqsp.LPoly as LP
     import pyqsp.decomposition as D
@@ -108,7 +108,7 @@ def run(tier, seed):
 def replay(path):
     import json
     c = json.load(open(path))
-    ctx = core.Ctx(PROP, "quick", c.get("seed", 0), "translation_validation", ["C06"])
+    ctx = core.Ctx(PROP, "quick", c.get("seed", 0), "translation_validation", ["C06", "C06b"])
     import pyqsp.LPoly as LP
     import pyqsp.decomposition as D
     one(ctx, LP, D, c["phases"], c.get("mode", "?"))
